@@ -476,13 +476,13 @@ Proof.
            ++ apply cnt_set_cand; [exact B | apply Hnone; left; reflexivity].
            ++ exact C.
            ++ intros c Hc. rewrite st_upd_eq. destruct (c =? j) eqn:E; [|apply D; exact Hc].
-              apply Nat.eqb_eq in E. subst. rewrite (D j Hc) in Hnone. specialize (Hnone j (or_introl eq_refl)). discriminate.
+              apply Nat.eqb_eq in E. subst. pose proof (Hnone j (or_introl eq_refl)) as Hn. rewrite (D j Hc) in Hn. discriminate.
         -- intros c Hpc Hs. unfold seen in Hs. cbn [w_st w_queue] in *. rewrite st_upd_eq in Hs.
            destruct (c =? j) eqn:E.
            ++ apply Nat.eqb_eq in E. subst. exfalso. apply Ehc. exact Hpc.
            ++ destruct (Hcl c Hpc Hs) as [H|[r [H1 H2]]]; [left; exact H|]. right. exists r. split; [exact H1|].
               intros c' Hc'. cbn [w_st]. rewrite st_upd_eq. destruct (c' =? j) eqn:E'; [|apply H2; exact Hc'].
-              apply Nat.eqb_eq in E'. subst. rewrite (H2 j Hc') in Hnone. specialize (Hnone j (or_introl eq_refl)). discriminate.
+              apply Nat.eqb_eq in E'. subst. pose proof (Hnone j (or_introl eq_refl)) as Hn. rewrite (H2 j Hc') in Hn. discriminate.
       * apply Hnext.
         -- right. exact I.
         -- intros c Hc. rewrite st_occ. apply Nat.eqb_neq in Hc. rewrite Hc. reflexivity.
@@ -571,7 +571,8 @@ Qed.
 
 Lemma diff_step_spec : forall L w p, wk_inv L w ->
   let w' := wk_diff_step w p in
-  wk_inv (L ++ [p]) w' /\ wk_le w w' /  length (w_queue w) <= length (w_queue w') /\ (length (w_queue w') = length (w_queue w) -> w' = w).
+  wk_inv (L ++ [p]) w' /\ wk_le w w' /\
+  length (w_queue w) <= length (w_queue w') /\ (length (w_queue w') = length (w_queue w) -> w' = w).
 Proof.
   intros L w [r c] [H0 Hc]. unfold wk_diff_step. cbn [snd].
   destruct (wk_is_candidate w c || wk_is_occupied w c) eqn:E; cbv zeta.
@@ -597,7 +598,8 @@ Qed.
 
 Lemma update_diff_spec : forall D L w, wk_inv L w ->
   let w' := wk_update_diff D w in
-  wk_inv (L ++ D) w' /\ wk_le w w' /  length (w_queue w) <= length (w_queue w') /\ (length (w_queue w') = length (w_queue w) -> w' = w).
+  wk_inv (L ++ D) w' /\ wk_le w w' /\
+  length (w_queue w) <= length (w_queue w') /\ (length (w_queue w') = length (w_queue w) -> w' = w).
 Proof.
   induction D as [|p D IH]; intros L w Hinv; cbv zeta.
   - cbn [wk_update_diff fold_left]. rewrite app_nil_r. splits; [exact Hinv | apply wk_le_refl | lia | reflexivity].
@@ -616,7 +618,8 @@ Qed.
 (* the commit                                                                                       *)
 (* ------------------------------------------------------------------------------------------------ *)
 Lemma commit_ok : forall P w j, NoDup (map snd P) -> acyclic M P -> searched_ok P w j ->
-  ~ pcol P j /\ In j (cols_in M (w_row w)) /\ is_cand M (w_row w) j = true /  acyclic M (P ++ [(w_row w, j)]).
+  ~ pcol P j /\ In j (cols_in M (w_row w)) /\ is_cand M (w_row w) j = true /\
+  acyclic M (P ++ [(w_row w, j)]).
 Proof.
   intros P w j Hnd Hac [[H0 Hc] [Hrs [Hq Hj]]].
   destruct (wi_cand _ _ H0 j Hj) as [A1 [A2 A3]].
